@@ -141,6 +141,16 @@ CHECKS["C08"] = (
     "DESIGN.md section 6, C08",
 )
 
+CHECKS["C09"] = (
+    "Hypothesis-generated meter calendars and sub-daily temperature feeds with integer readings; per-meter-day reference mean and counts",
+    "Generated-input search: daily meters (midnight or another read hour; from_series and merged-frame entry) and billing meters "
+    "(merged frame) x hourly / half-hourly feeds in the meter's zone, UTC or another zone x NaN cells and blocks around the 50% "
+    "threshold x DST days; each meter day's temperature must be the mean of the present readings of that day, missing at or below "
+    "50%, and (hook) the per-day present/absent counts exact. Three defects of the non-hourly path are listed as known findings.",
+    "Trusted: the per-day reference in vf/props/c09.py; hook H2 (sufficiency frame) for the counts.",
+    "DESIGN.md section 6, C09",
+)
+
 PENDING_REASON = "check not built yet in this session (work in progress; property-based testing applies and is planned, see DESIGN.md section 6)"
 
 
